@@ -1365,9 +1365,10 @@ def _iterables(maxlen):
     return out
 
 
-def _slices(n):
+def _slices(n, steps=(None, 2, -1)):
+    # (step 1 is step None)
     bounds = [None] + list(range(-(n + 1), n + 2))
-    return [slice(a, b, st) for st in (None, 1, 2, -1) for a in bounds for b in bounds]
+    return [slice(a, b, st) for st in steps for a in bounds for b in bounds]
 
 
 def _model_inputs(shape, n):
@@ -1461,6 +1462,8 @@ def r5(ctx):
             worst, runs, bad, unavailable = None, 0, 0, True
             for initial in _INITIAL[kind]:
                 for shape in COLL_ARGS[kind][m]:
+                    if shape.startswith("slice") and len(set(initial)) != len(initial) and not ctx.thorough:
+                        continue            # (quick tier: slices on duplicate-free contents only -- the time budget)
                     for label, args, kwargs in _model_inputs(shape, len(initial)):
                         model = ProxyExec(ctx, cls, kind, initial)
                         ref = _BUILTIN[kind](initial)
@@ -1583,9 +1586,18 @@ R.mutant("benign-ol-insert-renumbers-tail-correctly", OL,
 R.mutant("benign-ol-insert-inlines-reorder", OL,
          sub(INS, "        super().insert(index, entity)\n        for i, member in enumerate(self):\n            self._order_entity(i, member, True)\n"), None)
 # the repair of the C50-R3 finding must be accepted
+_SETPOS = ("            position = int(index)  # type: ignore[arg-type]\n"
+           "            if position < 0:\n"
+           "                # plain-list semantics: a negative index counts from the end\n"
+           "                position += len(self)\n"
+           "            self._order_entity(position, entity, True)\n")
 R.mutant("benign-ol-setitem-normalises-negative-index", OL,
-         sub("            self._order_entity(int(index), entity, True)  # type: ignore[arg-type] # noqa: E501\n",
-             "            position = int(index)\n            if position < 0:\n                position += len(self)\n            self._order_entity(position, entity, True)\n"), None)
+         sub(_SETPOS, "            position = int(index)  # type: ignore[arg-type]\n"
+                      "            position = position + len(self) if position < 0 else position\n"
+                      "            self._order_entity(position, entity, True)\n"), None)
+# (what the tree had before the repair)
+R.mutant("ol-setitem-negative-index-not-normalised", OL,
+         sub(_SETPOS, "            self._order_entity(int(index), entity, True)  # type: ignore[arg-type] # noqa: E501\n"), "C50-R3")
 DCONST = "            elif key in constants:\n                self[key] = member\n"
 SCONST = "            elif member in constants:\n                appender(member)\n"
 R.mutant("seed2-apdict-bulk-replace-skips-kept-keys", AP, chain(sub(DCONST, ""), sub(SCONST, "")), "C50-R4")
